@@ -83,7 +83,7 @@ func judgeC11(c *C06Case, cx *Ctx) *Violation {
 			}
 			par, ok := 0.0, true
 			for _, v := range rp {
-				par = polyParam(ip, v, par, 1.0)
+				par = polyParam(ip, v, par, 1.000001) // 1 unit + float guard
 				if par < 0 {
 					ok = false
 					break
